@@ -421,9 +421,9 @@ fn signature(model: &Model, op: &Op, what: &str) -> String {
 
 fn run(rep: &Report) {
     let keys: Vec<i64> = rep.tier.pick(vec![1, 2, 3], vec![1, 2, 3, 4]);
-    let depth = std::env::var("C18_DEPTH").ok().and_then(|s| s.parse().ok()).unwrap_or(rep.tier.pick(5, 6));
+    let depth = std::env::var("C18_DEPTH").ok().and_then(|s| s.parse().ok()).unwrap_or(6);
     let batch_max = rep.tier.pick(2, 3);
-    let max_states = rep.tier.pick(400_000, 6_000_000);
+    let max_states = rep.tier.pick(1_000_000, 8_000_000);
     rep.set_rule(&format!(
         "BFS from the empty blob, depth {depth}, keys {keys:?}, values {{10,20}}, operations: insert(Auto|AsRoot|Leaf{{every block index incl. one past the end, both sides}}), insert/upsert with a hash owned by another key, upsert, delete (present and absent), batch_insert of every list of <= {batch_max} entries (duplicates included), calculate_lazy_hashes, reload from bytes; state key = blob bytes + free-index list in order (exact, no hashing); distinct_nontrivial = distinct states whose map is non-empty"
     ));
